@@ -16,7 +16,7 @@ CGF_RUNS = {"thorough": 3000}  # coverage-guided stage (vlib/cgf.py): libFuzzer 
 RULE = (
     "Base listings are real objdump output for generated objects/blobs and rendered synthetic listings. 1-6 presentation edits (kinds drawn first) are applied at drawn "
     "positions to a structured copy of the listing: add/remove/rename symbol label lines; remove/alter <sym+off> annotations after address operands; remove/alter/add "
-    "'# ...' comments; add/remove blank lines; add/remove/rename section header lines; remove/alter/add the file-format header; leading spaces 0-12; byte column "
+    "'# ...' comments; add/remove blank lines; add/remove/rename section header lines; remove/alter/add the file-format header; leading spaces 0-12 and 16-56; file names made of hexadecimal digits only in the file-format header; byte column "
     "content and length (1-7 bytes as objdump wraps by default, 8-13 on one line as --insn-width prints) with objdump's padding rule; comments that end in a colon or look like a section header; every stream comparison is repeated with valid_addr_range and a sections list configured; add/remove byte-continuation lines. Oracle (metamorphic): all_instructions_string and the all-matches lists of 3 rules "
     "derived from the base listing are identical before and after. Non-trivial: >= 2 distinct edit kinds actually applied and the listing has >= 1 annotated branch or comment; "
     "distinct by hash of (base, edited)."
@@ -27,6 +27,7 @@ EDITS = ["label-add", "label-remove", "label-rename", "annot-remove", "annot-alt
 FLOORS = {f"edit={e}": 0.012 for e in EDITS}
 FLOORS.update({"kinds>=2": 0.4, "edit=format-add": 0.001})
 NAMES = ["see file format notes", "main", "_start", "f@plt", ".text", "foo+0x10", "_ZN3foo3barEv", "foo(int)", "operator new(unsigned long)", "x", "L1", "data_16", "sym.with.dots", "null check:", "0x2000 <main>:", "note: see below", "Disassembly of section .text:", "operator>>", "std::vector<int>::at(unsigned long)", "a<b>::c", "operator>>", "T<U>", "std::map<K, V>::find"]
+HEXNAMES = ["dd", "cc", "bc", "ed", "f", "0", "bad", "cafe", "add", "a", "dead.beef"[:4], "fe"]
 INST = re.compile(r"^(\s*)([0-9a-f]+):\t((?:[0-9a-f]{2} )+)(\s*)\t(\S.*)$")
 
 
@@ -135,13 +136,15 @@ def apply_edits(lines, edits):
             if k == "format-remove":
                 del lines[i]
             else:
-                lines[i] = f"/some/dir/{e['name']}.o:     file format pei-x86-64"
+                lines[i] = f"/some/dir/{e['name']}.o:     file format pei-x86-64" if e["n"] % 3 else f"{HEXNAMES[w % len(HEXNAMES)]}:     file format elf64-x86-64"
         elif k == "format-add":
             if any("file format" in ln for ln in lines):
                 continue
-            lines[0:0] = ["", "a.out:     file format elf64-x86-64", ""]
+            # the name of the disassembled file: anything, also a name made of hexadecimal digits only (`objdump -d dd`, `cc`, `f`)
+            lines[0:0] = ["", f"{'a.out' if e['n'] % 2 else HEXNAMES[w % len(HEXNAMES)]}:     file format elf64-x86-64", ""]
         elif k == "indent":
-            pad = " " * e["n"]
+            # 0-12 blanks, or (one time in four) as deep as a listing quoted in nested mail / markdown indentation: 16-56
+            pad = " " * (e["n"] if w % 4 else 16 + 4 * (e["n"] % 11))
             for i, ln in enumerate(lines):
                 m = INST.match(ln)
                 if m:
